@@ -31,6 +31,7 @@ fn sn_of(v: &Value, ctx: &AdvCtx) -> i64 {
         "TWO" => 2,
         "NEXT" => ctx.next_sn,
         "NEXT1" => ctx.next_sn + 1,
+        "NEXT2" => ctx.next_sn + 2,
         "FAR" => ctx.next_sn + 1000,
         "BIG" => 1i64 << 32,
         "MAX" => i64::MAX,
